@@ -1,9 +1,13 @@
-"""Contracts for hypergraphx/utils/cc.py (C08): the connectivity functions against the partition into reachability classes.
+"""Contracts for hypergraphx/utils/cc.py and hypergraphx/utils/visits.py (C08): connectivity against the reachability classes.
 
-`_bfs` (deque, generator expression, bound-method aliases) is outside the verified subset; it gets an ASSUMED contract: it returns
-COMP(hg, start, filter), the class of `start` under the reachability relation generated by the filtered hyperedges, and these classes
-form a partition of the node set (axioms comp_* below). The assumed contract is checked at run time in the bounded tier of C08.
-Everything else in cc.py is verified against it: in particular that every function forwards the *same* order/size filter.
+COMP(hg, n, filter) is DEFINED as the least set of nodes that contains n and is closed under "shares a (filtered) hyperedge with"
+(axioms comp_refl, comp_step, comp_least; `closed` and `nodes_ok` are auxiliary predicates with their own definitions). Two consequences
+of the definition that need induction, and therefore cannot be derived by E-matching, are stated as lemmas and proved in Lean from exactly
+these three axioms (lean/Comp.lean): the classes of a symmetric relation are equal or disjoint (comp_class) and stay inside the node set
+when every hyperedge does (comp_nodes).
+`_bfs` is VERIFIED against this definition (while-loop invariant: visited and queued nodes are reachable; the start node and every
+neighbour of a visited node is visited or queued), and everything in cc.py against `_bfs`'s contract - in particular that every function
+forwards the *same* order/size filter.
 """
 import z3
 from ..pyvc import ty as T
@@ -13,6 +17,7 @@ from ..pyvc.ty import fresh
 from . import hypergraph as H
 
 FILE = "hypergraphx/utils/cc.py"
+LEAN_LEMMAS = ["lean/Comp.lean"]      # proofs of the axioms tagged (lemma, Lean); re-checked by ./check C08 / C05
 SI = T.Set(T.INT)
 SSI = T.Set(SI)
 ES, VS = z3.ArraySort(T.TupS, T.B), z3.ArraySort(T.I, T.B)
@@ -20,19 +25,51 @@ COMPF = z3.Function("COMP", ES, VS, T.I, T.B, T.I, SI.sort())            # class
 CLASSESF = z3.Function("CLASSES", ES, VS, T.B, T.I, SSI.sort())         # the set of all classes
 WITF = z3.Function("class_witness", ES, VS, T.B, T.I, SI.sort(), T.I)    # Skolem: a node whose class a given class is
 
-_E, _V = z3.Const("_E", ES), z3.Const("_V", VS)
-_n, _m, _fo = z3.Int("_cn"), z3.Int("_cm"), z3.Int("_cfo")
+CLOSEDF = z3.Function("closed", ES, T.B, T.I, VS, T.B)                   # S is closed under sharing a filtered hyperedge
+CWA, CWB = z3.Function("closed_wa", ES, T.B, T.I, VS, T.I), z3.Function("closed_wb", ES, T.B, T.I, VS, T.I)
+CWK = z3.Function("closed_wk", ES, T.B, T.I, VS, T.TupS)
+NODESOKF = z3.Function("nodes_ok", ES, VS, T.B)                           # every node of every hyperedge is a node
+NWK, NWA = z3.Function("nodes_ok_wk", ES, VS, T.TupS), z3.Function("nodes_ok_wa", ES, VS, T.I)
+
+_E, _V, _S = z3.Const("_E", ES), z3.Const("_V", VS), z3.Const("_cS", VS)
+_n, _m, _fo, _a, _b = z3.Int("_cn"), z3.Int("_cm"), z3.Int("_cfo"), z3.Int("_ca"), z3.Int("_cb")
 _fn = z3.Bool("_cfn")
+_k = z3.Const("_ck", T.TupS)
 _c = z3.Const("_cc", SI.sort())
+MP = z3.MultiPattern
+
+
+def _selk(k, fn, fo):
+    return z3.Or(fn, TH.tlen(k) - 1 == fo)
+
+
+def _joined(E, fn, fo, k, a, b):
+    return z3.And(E[k], _selk(k, fn, fo), TH.tmem(k, a), TH.tmem(k, b))
+
+
+_C = COMPF(_E, _V, _n, _fn, _fo)
 TH.EXTRA.update({
-    "comp_refl (assumed of _bfs)": z3.ForAll([_E, _V, _n, _fn, _fo], z3.Implies(_V[_n], COMPF(_E, _V, _n, _fn, _fo)[_n]),
-                                             patterns=[COMPF(_E, _V, _n, _fn, _fo)]),
-    "comp_nodes (assumed of _bfs)": z3.ForAll([_E, _V, _n, _fn, _fo, _m], z3.Implies(z3.And(_V[_n], COMPF(_E, _V, _n, _fn, _fo)[_m]), _V[_m]),
-                                              patterns=[COMPF(_E, _V, _n, _fn, _fo)[_m]]),
-    "comp_class (assumed of _bfs)": z3.ForAll([_E, _V, _n, _fn, _fo, _m], z3.Implies(z3.And(_V[_n], COMPF(_E, _V, _n, _fn, _fo)[_m]),
-                                              COMPF(_E, _V, _m, _fn, _fo) == COMPF(_E, _V, _n, _fn, _fo)), patterns=[COMPF(_E, _V, _n, _fn, _fo)[_m]]),
-    "classes_intro (definition)": z3.ForAll([_E, _V, _n, _fn, _fo], z3.Implies(_V[_n], CLASSESF(_E, _V, _fn, _fo)[COMPF(_E, _V, _n, _fn, _fo)]),
-                                            patterns=[COMPF(_E, _V, _n, _fn, _fo)]),
+    # ---- definition of the reachability class: least set containing n and closed under sharing a filtered hyperedge
+    "comp_refl (definition)": z3.ForAll([_E, _V, _n, _fn, _fo], _C[_n], patterns=[_C]),
+    "comp_step (definition)": z3.ForAll([_E, _V, _n, _fn, _fo, _k, _a, _b], z3.Implies(z3.And(_C[_a], _joined(_E, _fn, _fo, _k, _a, _b)), _C[_b]),
+                                        patterns=[MP(_C[_a], TH.tmem(_k, _a), TH.tmem(_k, _b))]),
+    "comp_least (definition)": z3.ForAll([_E, _V, _n, _fn, _fo, _S, _m], z3.Implies(z3.And(_S[_n], CLOSEDF(_E, _fn, _fo, _S), _C[_m]), _S[_m]),
+                                         patterns=[MP(_S[_n], _C[_m])]),
+    "closed_elim (definition)": z3.ForAll([_E, _fn, _fo, _S, _k, _a, _b],
+                                          z3.Implies(z3.And(CLOSEDF(_E, _fn, _fo, _S), _S[_a], _joined(_E, _fn, _fo, _k, _a, _b)), _S[_b]),
+                                          patterns=[MP(CLOSEDF(_E, _fn, _fo, _S), _S[_a], TH.tmem(_k, _a), TH.tmem(_k, _b))]),
+    "closed_intro (definition)": z3.ForAll([_E, _fn, _fo, _S], z3.Or(CLOSEDF(_E, _fn, _fo, _S),
+                                           z3.And(_S[CWA(_E, _fn, _fo, _S)], z3.Not(_S[CWB(_E, _fn, _fo, _S)]),
+                                                  _joined(_E, _fn, _fo, CWK(_E, _fn, _fo, _S), CWA(_E, _fn, _fo, _S), CWB(_E, _fn, _fo, _S)))),
+                                           patterns=[CLOSEDF(_E, _fn, _fo, _S)]),
+    "nodes_ok_elim (definition)": z3.ForAll([_E, _V, _k, _a], z3.Implies(z3.And(NODESOKF(_E, _V), _E[_k], TH.tmem(_k, _a)), _V[_a]),
+                                            patterns=[MP(NODESOKF(_E, _V), _E[_k], TH.tmem(_k, _a))]),
+    "nodes_ok_intro (definition)": z3.ForAll([_E, _V], z3.Or(NODESOKF(_E, _V), z3.And(_E[NWK(_E, _V)], TH.tmem(NWK(_E, _V), NWA(_E, _V)), z3.Not(_V[NWA(_E, _V)]))),
+                                             patterns=[NODESOKF(_E, _V)]),
+    # ---- lemmas: consequences of the definition that need induction (proved in lean/Comp.lean from comp_refl, comp_step, comp_least)
+    "comp_nodes (lemma, Lean)": z3.ForAll([_E, _V, _n, _fn, _fo, _m], z3.Implies(z3.And(NODESOKF(_E, _V), _V[_n], _C[_m]), _V[_m]), patterns=[_C[_m]]),
+    "comp_class (lemma, Lean)": z3.ForAll([_E, _V, _n, _fn, _fo, _m], z3.Implies(_C[_m], COMPF(_E, _V, _m, _fn, _fo) == _C), patterns=[_C[_m]]),
+    "classes_intro (definition)": z3.ForAll([_E, _V, _n, _fn, _fo], z3.Implies(_V[_n], CLASSESF(_E, _V, _fn, _fo)[_C]), patterns=[_C]),
     "classes_elim (definition)": z3.ForAll([_E, _V, _fn, _fo, _c], z3.Implies(CLASSESF(_E, _V, _fn, _fo)[_c],
                                            z3.And(_V[WITF(_E, _V, _fn, _fo, _c)], _c == COMPF(_E, _V, WITF(_E, _V, _fn, _fo, _c), _fn, _fo))),
                                            patterns=[CLASSESF(_E, _V, _fn, _fo)[_c]]),
@@ -81,14 +118,22 @@ LSIZE_ENS = lambda h: {"bound": f"all(card(c) <= result for c in CLASSES({h}, or
                        "attained": f"any(card(c) == result for c in CLASSES({h}, order, size))"}
 
 CONTRACTS = [
-    Contract("_bfs", "hypergraphx/utils/visits.py", ["_bfs"], assumed=True, properties=["C08"],
+    Contract("_bfs", "hypergraphx/utils/visits.py", ["_bfs"], properties=["C08"],
              params={"hg": "Obj[Hypergraph]", "start": "Node", "max_depth": "None", "order": "Opt[Int]", "size": "Opt[Int]"},
-             fixed={"max_depth": None}, result="Set[Int]", pure=True,
-             requires={"one_filter": "order is None or size is None"},
+             fixed={"max_depth": None}, result="Set[Int]", pure=True, options={"int_pairs"},
+             locals={"visited": "Set[Int]", "queue": "Bag[Pair[Int,Int]]", "neighbors": "Set[Int]"},
+             requires={"wf": "wf(hg)", "one_filter": "order is None or size is None"},
              raises={"ValueError": "start not in V(hg)"},
              ensures={"class": "result == COMP(hg, start, order, size)"},
-             note="breadth-first search returns the reachability class of its start node under the filtered hyperedges; classes partition the "
-                  "node set (axioms comp_refl, comp_nodes, comp_class). Checked at run time in the bounded tier of C08."),
+             # the queue is a bag (which element popleft() takes is not modelled: the result does not depend on it); termination is not proved
+             invariants={0: {
+                 "vis_sound": "all(n in COMP(hg, start, order, size) for n in visited)",
+                 "q_sound": "all(fst(q) in COMP(hg, start, order, size) for q in queue)",
+                 "nodes": "all(n in V(hg) for n in visited) and all(fst(q) in V(hg) for q in queue)",
+                 "start": "start in visited or any(count(queue, pair(start, d)) >= 1 for d in Int)",
+                 "frontier": "all(implies(n in visited and k in E(hg) and sel(hg, k, order, size, False) and n in k and m in k, m in visited or any(count(queue, pair(m, d)) >= 1 for d in Int)) "
+                             "for n in Node for k in Tuple for m in Node)"}},
+             note="breadth-first search returns the reachability class of its start node under the filtered hyperedges"),
     F("connected_components", params={**HG, **OS}, result="Bag[Set[Int]]", pure=True,
       locals={"visited": "Bag[Int]", "components": "Bag[Set[Int]]"},
       requires={"wf": "wf(hg)"}, raises={"ValueError": BOTH}, ensures=CC_ENS("hg"),
